@@ -91,6 +91,7 @@ void fsv_harness(void)
 #ifdef EXCL_DEGENERATE
     FSV_ASSUME(sum > 0.0 && FSV_ISFINITE(sum));
 #endif
+    if (!(sum > 0.0 && FSV_ISFINITE(sum))) FSV_NOTE("CLASS degenerate-sum: node %d has %d lower neighbours, sum of slope^p = %g\n", i, n, sum);
     double wsum = 0.0;
     for (int k = 0; k < n; k++) {
       FSV_ASSERT(rec[i * D + k] == xr[k], "receivers are exactly the lower unmasked neighbours, each once");
@@ -98,7 +99,9 @@ void fsv_harness(void)
       double w = rweight[i * D + k];
 #ifndef NO_WEIGHTS
       FSV_ASSERT(!FSV_ISNAN(w), "weight is not NaN");
+#ifndef NAN_ONLY
       FSV_ASSERT(w == pw[k] / sum, "weight is slope^p over the sum of slope^p (library summation order)");
+#endif
 #endif
 #ifdef WEIGHT_RANGE
       FSV_ASSERT(FSV_ISFINITE(w), "weight is finite");
